@@ -153,6 +153,9 @@ class Run:
         return ["java", "-Xss512m", "-XX:+UseParallelGC", "-XX:ParallelGCThreads=4"] + (["-Xmx%s" % heap] if heap else []) + ["-cp", JAR, "tlc2.TLC", "-workers", str(workers)]
 
     def tlc(self, module, cfg, workers=1, timeout=600, env=None, extra=(), heap=None):
+        # timeouts only protect against a hung tool; on a loaded machine runs take several times their usual time, and a
+        # timeout on the unchanged tree would make the check exit 2
+        timeout = max(timeout, 3600)
         self.tlcn += 1
         md = os.path.join(self.scratch, "md-%d-%d" % (os.getpid(), self.tlcn))
         args = self._java(workers, heap) + ["-metadir", md, "-config", cfg] + list(extra) + [module + ".tla"]
